@@ -80,6 +80,11 @@ def run(b, ps, tier, seed):
     acc_in = sorted(i for i, _ in d.programs if accres.get(i, "").startswith("ACC-IN"))
     acc_in_not_lin = sorted(i for i, _ in d.programs if accres.get(i, "") == "ACC-IN\tlin=0")
     lin_not_acc = sorted(i for i, _ in d.programs if accres.get(i, "") == "ACC-OUT\tlin=1")
+    # the premises of determinism_all: closed + source test (no empty case, no droppable forward): topo_runs is a theorem
+    allres = S.run_tool(b.model, "allaccept", cases, timeout=900)
+    all_in = sorted(i for i, _ in d.programs if allres.get(i, "") == "ALL-IN")
+    all_out_src = sorted(i for i, _ in d.programs if allres.get(i, "") == "ALL-OUT-SRC")
+    all_out_open = sorted(i for i, _ in d.programs if allres.get(i, "") == "ALL-OUT-OPEN")
     lin_out_core = sorted(i for i, t in d.programs if linres.get(i, "") == "LIN-OUT" and not R.uses_contraction(t) and "drop" not in R.strip_comments(t))
     if hyp_fail and not violations:
         i, m, sd, nbad, t = hyp_fail[0]
@@ -99,6 +104,10 @@ def run(b, ps, tier, seed):
                          "typed_core_class": {"what": "tested programs that satisfy init_linear_b (proofs/InitLinear.v, sound for the static premise of determinism_typed_core: no drop/split/multi-name, affine bodies, initial configuration a forest): for these topo_reachable is a theorem and C03 rests only on teq_ok and tc_annotations_typed",
                                               "programs_in_class": len(lin_in), "of": len(d.programs), "ids": lin_in[:12],
                                               "drop_split_free_but_rejected_by_check": lin_out_core[:12]},
+                         "accepted_all_class": {"what": "tested programs that satisfy the premises of determinism_all / topo_runs_all (proofs/DeterminismAll.v): parsed, accepted, closed (no assumed names), and the SOURCE has no empty case and no droppable forward: for these programs - drop, split, multi-name providers included - Topo along the runs is a theorem (invariant InvX, preserved by every step), so C03 (and the premise topo_runs of C01/C02) holds with no premise about runs",
+                                                "programs_in_class": len(all_in), "of": len(d.programs), "ids": all_in[:12],
+                                                "accepted_closed_but_source_test_fails": all_out_src[:12],
+                                                "accepted_but_open": len(all_out_open)},
                          "accepted_core_class": {"what": "tested programs that satisfy the SOURCE-level premises of determinism_core_accept (parsed, accepted, no assumed names, core_src_b: no drop/split/droppable forward, one provider name per process, no empty case): by init_linear_accept (proofs/InitAccept.v) init_linear of the checker's output is a theorem for them, so C03 holds of them with no premise about runs or about the annotated program",
                                                  "programs_in_class": len(acc_in), "of": len(d.programs), "ids": acc_in[:12],
                                                  "in_class_but_init_linear_b_false": acc_in_not_lin[:12],
